@@ -349,7 +349,7 @@ class Agent(dbus.service.Object):
             create_dtntime = ctr.bundle.primary.create_ts.getfieldval('dtntime')
             if create_dtntime != 0:
                 now_dtntime = self.timestamp().getfieldval('dtntime')
-                age = now_dtntime - create_dtntime
+                age = max(0, now_dtntime - create_dtntime)
                 ctr.add_block(CanonicalBlock() / BundleAgeBlock(age=age))
 
             self.send_bundle(ctr)
